@@ -43,10 +43,27 @@ def run(ctx):
         ctx.count(("g", c["inst"], tuple(c["q"]), tuple(sorted(ev.items())), json.dumps(vt, sort_keys=True)),
                   nontrivial=bool(ev) or bool(vt) or len(c["q"]) > 1, n=0)
     ctx.extra["cases_with_ties"] = ties
+    # ---- Markov networks on the elimination engine (incl. value-identical factors): recorded, validated by Trace_MN
+    from .. import mnutil
+    from . import c02, c14
+    rng = random.Random(ctx.seed + 33)
+    mns = []
+    for sh in ["edge", "chain4", "tri_tail", "cycle4", "cycle5"] + (["star4", "k4", "cycle6", "grid23", "two_tri"] if ctx.thorough else []):
+        for dup in (False, True):
+            mns.append(mnutil.mn_instance(rng, len(mns) + 1, sh, dup=dup, unary=rng.random() < 0.5, ternary=rng.random() < 0.3))
+    pl = [(hs, {"insts": ch, "seed": ctx.seed * 100 + hs * 8 + j, "tid0": (hs * 8 + j) * 1000, "mode": "ve_mn"})
+          for hs in hseeds[:4 if ctx.thorough else 2] for j, ch in enumerate(chunks(mns, 4 if ctx.thorough else 8))]
+    traces = []
+    for res in run_workers(ctx, "c02", "record", pl):
+        traces += [t for t in res["traces"] if any(e["ev"] in ("ve_query", "map_query") for e in t["events"])]
+    c14.validate(ctx, traces, "C03mn")
 
 
 def replay(ctx, rec):
     case = rec["case"]
+    if case.get("kind") == "trace":
+        from . import c02
+        return c02.replay(ctx, rec)
     res = run_workers(ctx, "c03", "replay_gen", [(case["hashseed"], {"insts": [case["inst"]], "cases": [case["expected"]],
                                                                     "seed": case["seed"], "force": case.get("config")})])[0]
     return res["fails"][:1] or None
